@@ -65,7 +65,7 @@ def gen(seed, tier):
         dscript += [["sleep", rng.choice([0.0, 0.0, 0.05, 0.3])], op]
     if rng.random() < 0.3:
         dscript += [["gc"]]
-    trig = rng.choice(["fail-asyncio", "fail-trio", "fail-threading", "sigint", "stop", "shutdown", "shutdown-thread-payload", "ki-asyncio", "ki-threading", "fail-two", "exit-asyncio", "exit-threading", "exit-trio"])
+    trig = rng.choice(["fail-asyncio", "fail-trio", "fail-threading", "sigint", "stop", "shutdown", "shutdown-thread-payload", "ki-asyncio", "ki-threading", "fail-two", "exit-asyncio", "exit-threading", "exit-trio", "shutdown-trio-payload", "shutdown-asyncio-payload"])
     t = rng.choice([0.0, 0.0, 0.01, 0.2, 0.5, 1.0, 1.3])
     just_started = [p["id"] for p in payloads if p.get("via") in ("adopt", "service") and p["flavour"] != "threading"]
     if just_started and rng.random() < 0.5:
@@ -88,6 +88,10 @@ def gen(seed, tier):
     elif trig.startswith("ki-"):
         payloads.append({"id": "trig", "flavour": trig[3:], "via": "adopt", "steps": [["raise", "KeyboardInterrupt"]], "trigger": True})
         dscript.append(["adopt", "trig"])
+    elif trig in ("shutdown-trio-payload", "shutdown-asyncio-payload"):
+        # a coroutine payload stops the daemon the well-behaved way: shutdown() on a worker thread of its framework
+        payloads.append({"id": "trig", "flavour": trig.split("-")[1], "via": "adopt", "steps": [["shutdown-in-thread"], ["block"]], "trigger": True, "cleanup_sync": 1})
+        dscript.append(["adopt", "trig"])
     elif trig == "shutdown-thread-payload":
         payloads.append({"id": "trig", "flavour": "threading", "via": "adopt", "steps": [["shutdown"]], "trigger": True})
         dscript.append(["adopt", "trig"])
@@ -97,30 +101,30 @@ def gen(seed, tier):
     if rng.random() < 0.5:
         # adoptions racing with the termination itself: a second thread keeps handing coroutine payloads to the
         # runtime from the moment the trigger fires until well after the run call has ended
-        marker = {"sigint": "sigint-sent", "stop": "stop-call", "shutdown": "shutdown-call"}.get(trig, "start:trig")
+        marker = {"sigint": "sigint-sent", "stop": "stop-call", "shutdown": "shutdown-call", "shutdown-trio-payload": "shutdown-call", "shutdown-asyncio-payload": "shutdown-call"}.get(trig, "start:trig")
         lscript = [["wait-marker", marker]]
         for i in range(rng.randint(2, 6)):
             pid = "late%d" % i
             payloads.append({"id": pid, "flavour": rng.choice(["asyncio", "asyncio", "trio"]), "via": "adopt", "steps": [["hb", 0.05, None]], "cleanup_sync": rng.choice([0, 1, 2]), "late": True})
             lscript += [["sleep", rng.choice([0.0, 0.0, 0.001, 0.01, 0.05, 0.1, 0.2])], ["adopt", pid]]
         drivers.append({"id": "dl", "script": lscript})
-    if rng.random() < 0.3:
-        # execute() calls racing with the termination: another thread keeps executing coroutine payloads
-        # from the moment the trigger fires until after the run call has ended.  Refusing them is fine;
-        # one that does get started is a coroutine payload like any other
-        marker = {"sigint": "sigint-sent", "stop": "stop-call", "shutdown": "shutdown-call"}.get(trig, "start:trig")
-        xscript = [["wait-marker", marker]]
-        for i in range(rng.randint(2, 5)):
-            pid = "latex%d" % i
-            payloads.append({"id": pid, "flavour": rng.choice(["asyncio", "asyncio", "trio"]), "via": "execute", "steps": rng.choice([[["hb", 0.05, None]], [["sleep", 0.3], ["return", "none"]]]), "cleanup_sync": rng.choice([0, 1, 2]), "late": True})
-            xscript += [["sleep", rng.choice([0.0, 0.001, 0.01, 0.1, 0.3, 0.6, 1.0, 1.5])], ["execute", pid]]
-        drivers.append({"id": "dx", "script": xscript})
         if rng.random() < 0.6:
             # targeted alignment (DESIGN 3.5): a submitting thread is descheduled inside the registration path
             # right after the trigger and resumes only when the runtime's main coroutine winds down, so that its
             # hand-over lands in the last instants of the run call
             # (any line of the registration path; resumed as soon as the chosen function next makes progress, or a little later)
             knobs["stalls"] = [{"func": "register_payload", "nth": rng.randint(1, 14), "dur": 3.0, "after": True, "until": rng.choice(["_manage_runners", "_aclose_runners", "run"]), "k": rng.choice([1, 1, 2, 4])}]
+    if rng.random() < 0.3:
+        # execute() calls racing with the termination: another thread keeps executing coroutine payloads
+        # from the moment the trigger fires until after the run call has ended.  Refusing them is fine;
+        # one that does get started is a coroutine payload like any other
+        marker = {"sigint": "sigint-sent", "stop": "stop-call", "shutdown": "shutdown-call", "shutdown-trio-payload": "shutdown-call", "shutdown-asyncio-payload": "shutdown-call"}.get(trig, "start:trig")
+        xscript = [["wait-marker", marker]]
+        for i in range(rng.randint(2, 5)):
+            pid = "latex%d" % i
+            payloads.append({"id": pid, "flavour": rng.choice(["asyncio", "asyncio", "trio"]), "via": "execute", "steps": rng.choice([[["hb", 0.05, None]], [["sleep", 0.3], ["return", "none"]]]), "cleanup_sync": rng.choice([0, 1, 2]), "late": True})
+            xscript += [["sleep", rng.choice([0.0, 0.001, 0.01, 0.1, 0.3, 0.6, 1.0, 1.5])], ["execute", pid]]
+        drivers.append({"id": "dx", "script": xscript})
     knobs["horizon"] = 6.0 + knobs["accept_delay"] + 5.0 + sum(p.get("cleanup_async", 0) for p in payloads) + 3.0
     rng.shuffle(payloads)
     return {"prop": "C02", "seed": seed, "knobs": knobs, "payloads": payloads, "drivers": drivers, "trigger": trig, "grace": rng.choice([0.5, 2.5])}
